@@ -442,6 +442,18 @@ func c12DeepEq(rng *rand.Rand) string {
 		w("in0.y = 9")
 	}
 	cmp()
+	// a map of mixed value types ({}any) holding a shared composite: printed, the composite changed through its own
+	// name (no operation on the outer map), printed again through both aliases; then an insert into the outer map
+	upd := func(v int) string {
+		if arr {
+			return fmt.Sprintf("in1[0] = %d", v)
+		}
+		return fmt.Sprintf("in1.y = %d", v)
+	}
+	w("hm := {a:in1 b:2 c:\"s\"}\nhm2 := hm\nha := [in1 \"s\" 1]\nprint \"h1\" hm hm2 ha (sprint hm)")
+	w("%s\nprint \"h2\" hm hm2 ha (sprint hm) (sprint ha)", upd(11+rng.Intn(9)))
+	w("hm.d = in2\nprint \"h3\" hm\n%s\nprint \"h4\" hm hm2 (len hm)", upd(31+rng.Intn(9)))
+	w("del hm \"b\"\n%s\nprint \"h5\" hm hm2 ha", upd(51+rng.Intn(9)))
 	w("print in0 in1 in2 in3")
 	return b.String()
 }
